@@ -1,7 +1,255 @@
-//! Shared helpers of the checks.
+//! Shared helpers of the checks: registry, case generators, the driver, replay.
+
+use dv_core::entry::{Entry, Src};
+use dv_core::evidence::{open_known, Report, Tier};
+use dv_core::genp::{Gen, GenCfg};
+use dv_core::pv::PV;
+use dv_core::runner::{run_cases, Case, Failure, GenFn, Stats, Verdict};
+use dv_core::trace::Script;
+use rand::Rng;
+use serde_json::{json, Value as J};
+use std::sync::Arc;
 
 pub fn workers() -> usize {
     std::env::var("VERIF_WORKERS").ok().and_then(|s| s.parse().ok()).unwrap_or(16)
+}
+
+pub struct Reg {
+    pub entries: Vec<Entry>,
+    /// the reference interpreter models this entry completely
+    pub modelled: Vec<bool>,
+}
+
+impl Reg {
+    pub fn find(&self, name: &str) -> Option<usize> {
+        self.entries.iter().position(|e| e.name == name)
+    }
+    pub fn all(&self) -> Vec<usize> {
+        (0..self.entries.len()).collect()
+    }
+    pub fn modelled_idx(&self) -> Vec<usize> {
+        (0..self.entries.len()).filter(|i| self.modelled[*i]).collect()
+    }
+}
+
+pub fn registry() -> Arc<Reg> {
+    let mut entries = vec![];
+    let mut modelled = vec![];
+    for (e, m) in dv_core::catalogue::all_hand() {
+        entries.push(e);
+        modelled.push(m);
+    }
+    for e in dv_generated::entries() {
+        entries.push(e);
+        modelled.push(true);
+    }
+    Arc::new(Reg { entries, modelled })
+}
+
+#[derive(Clone, Debug)]
+pub enum ScriptMode {
+    AllContinue,
+    /// all-Continue, all-Break, Continue×k-then-Break, arbitrary
+    Mixed,
+}
+
+#[derive(Clone, Debug)]
+pub struct GenOpts {
+    pub dup_keys: bool,
+    pub nonfinite: bool,
+    pub plain_text: bool,
+    pub alt_key_spellings: bool,
+    pub scripts: ScriptMode,
+    /// fraction of type-blind payloads
+    pub blind: f64,
+    /// fraction of pathological (very deep / very wide) payloads
+    pub deep: f64,
+    /// force at least this fault level (0 = draw zero-fault cases too)
+    pub min_fault: f64,
+}
+
+impl Default for GenOpts {
+    fn default() -> Self {
+        GenOpts {
+            dup_keys: false,
+            nonfinite: false,
+            plain_text: false,
+            alt_key_spellings: false,
+            scripts: ScriptMode::AllContinue,
+            blind: 0.05,
+            deep: 0.0,
+            min_fault: 0.0,
+        }
+    }
+}
+
+pub fn gen_script(rng: &mut proptest::test_runner::TestRng, mode: &ScriptMode) -> Script {
+    match mode {
+        ScriptMode::AllContinue => Script::all_continue(),
+        ScriptMode::Mixed => match rng.random_range(0..10) {
+            0 | 1 => Script::all_continue(),
+            2 => Script::all_break(),
+            3..=5 => Script::break_at(rng.random_range(0..8)),
+            _ => {
+                let n = rng.random_range(0..12);
+                Script { answers: (0..n).map(|_| rng.random_range(0..4) != 0).collect(), default: rng.random_range(0..3) != 0 }
+            }
+        },
+    }
+}
+
+pub fn nest(depth: usize, leaf: PV, map: bool) -> PV {
+    let mut v = leaf;
+    for i in 0..depth {
+        v = if map && i % 2 == 0 { PV::Map(vec![("children".to_string(), v)]) } else { PV::Seq(vec![v]) };
+    }
+    v
+}
+
+pub fn case_gen(reg: Arc<Reg>, eligible: Vec<usize>, opts: GenOpts) -> GenFn {
+    assert!(!eligible.is_empty(), "no eligible type");
+    // scalars are cheap to cover: weight containers and derived types higher
+    let mut weighted: Vec<usize> = vec![];
+    for i in &eligible {
+        let e = &reg.entries[*i];
+        let w = if e.origin == "gen" || e.origin == "hand" {
+            8
+        } else if matches!(
+            e.ty,
+            dv_core::ty::Ty::Unit | dv_core::ty::Ty::Bool | dv_core::ty::Ty::Char | dv_core::ty::Ty::Str | dv_core::ty::Ty::Int(_) | dv_core::ty::Ty::F32 | dv_core::ty::Ty::F64
+        ) {
+            1
+        } else {
+            4
+        };
+        for _ in 0..w {
+            weighted.push(*i);
+        }
+    }
+    let eligible = weighted;
+    Arc::new(move |rng| {
+        let ti = eligible[rng.random_range(0..eligible.len())];
+        let fault = match rng.random_range(0..20) {
+            0..=4 => 0.0,
+            5..=11 => 0.06,
+            12..=17 => 0.2,
+            _ => 0.5,
+        };
+        let fault = f64::max(fault, opts.min_fault);
+        let cfg = GenCfg {
+            fault,
+            dup_keys: opts.dup_keys && rng.random_range(0..3) == 0,
+            nonfinite: opts.nonfinite && rng.random_range(0..3) == 0,
+            plain_text: opts.plain_text,
+            alt_key_spellings: opts.alt_key_spellings,
+            ..GenCfg::default()
+        };
+        let r: f64 = rng.random_range(0.0..1.0);
+        let mut g = Gen::new(rng, cfg);
+        let payload = if r < opts.deep {
+            let d = [16, 40, 100, 128][g.below(4)];
+            let leaf = g.blind(3);
+            let map = g.chance(0.5);
+            nest(d, leaf, map)
+        } else if r < opts.deep + opts.blind {
+            g.blind(0)
+        } else {
+            g.typed(&reg.entries[ti].ty, 0)
+        };
+        let faults = g.faults;
+        let script = gen_script(rng, &opts.scripts);
+        Case { ty: ti, payload, script, aux: rng.random::<u64>(), faults }
+    })
+}
+
+pub fn src_for(case: &Case) -> Src {
+    if case.payload.has_dup_keys() || case.payload.has_nonfinite() || case.aux & 1 == 0 {
+        Src::Ov
+    } else {
+        Src::Json
+    }
+}
+
+pub fn case_json(reg: &Reg, c: &Case) -> J {
+    let e = &reg.entries[c.ty];
+    json!({
+        "type": e.name,
+        "type_source": e.source,
+        "origin": e.origin,
+        "payload": c.payload.encode(),
+        "payload_shown": c.payload.show(),
+        "script": c.script.show(),
+        "aux": c.aux.to_string(),
+        "source": format!("{:?}", src_for(c)),
+    })
+}
+
+pub fn sample_json(reg: &Reg, c: &Case, note: J) -> J {
+    let e = &reg.entries[c.ty];
+    json!({"type": e.name, "payload": c.payload.show(), "script": c.script.show(), "source": format!("{:?}", src_for(c)), "observed": note})
+}
+
+pub fn parse_script(s: &str) -> Script {
+    let s = s.trim_end_matches('*');
+    let cs: Vec<char> = s.chars().collect();
+    let (body, def) = cs.split_at(cs.len().saturating_sub(1));
+    Script { answers: body.iter().map(|c| *c == 'C').collect(), default: def.first().map(|c| *c == 'C').unwrap_or(true) }
+}
+
+pub fn case_from_json(reg: &Reg, j: &J) -> Result<Case, String> {
+    let name = j["type"].as_str().ok_or("no type")?;
+    let ty = reg.find(name).ok_or_else(|| format!("type {name} not in the registry (program seed mismatch?)"))?;
+    Ok(Case {
+        ty,
+        payload: PV::decode(&j["payload"])?,
+        script: parse_script(j["script"].as_str().unwrap_or("C*")),
+        aux: j["aux"].as_str().and_then(|s| s.parse().ok()).unwrap_or(0),
+        faults: 0,
+    })
+}
+
+pub type TestFn = fn(&Reg, &Case, Option<&mut Stats>) -> Verdict;
+
+/// generic driver: generated cases through proptest, known-finding exclusion, evidence
+pub fn drive(
+    prop: &'static str,
+    tier: Tier,
+    rule: &str,
+    cases: (u32, u32),
+    reg: Arc<Reg>,
+    gen: GenFn,
+    test: TestFn,
+    assumptions: &[&str],
+) -> i32 {
+    let mut rep = Report::new(prop, tier, rule);
+    rep.assumptions = assumptions.iter().map(|s| s.to_string()).collect();
+    let known = open_known(prop);
+    let w = workers();
+    let per_worker = tier.pick(cases.0, cases.1) / w as u32;
+    let reg2 = reg.clone();
+    let out = run_cases(prop, rep.seed, w, per_worker, gen, move |case, stats| match test(&reg2, case, stats) {
+        Verdict::Violation(sig, d) if known.contains_key(&sig) => {
+            let _ = d;
+            Verdict::Known(sig)
+        }
+        v => v,
+    });
+    rep.stats = out.stats;
+    rep.extra.insert("types_in_registry".into(), json!(reg.entries.len()));
+    rep.extra.insert("generated_types".into(), json!(reg.entries.iter().filter(|e| e.origin == "gen").count()));
+    rep.extra.insert("program_seed".into(), json!(dv_generated::PROGRAM_SEED));
+    let reg3 = reg.clone();
+    let fs: Vec<Failure> = out.failures;
+    for f in fs {
+        let mut cj = case_json(&reg3, &f.case);
+        cj["program_seed"] = json!(dv_generated::PROGRAM_SEED);
+        rep.failures.push((f.signature.clone(), f.details.clone(), Some(cj)));
+    }
+    finish_with_seed(rep)
+}
+
+pub fn finish_with_seed(rep: Report) -> i32 {
+    rep.finish()
 }
 
 pub fn replay(path: &str) -> i32 {
@@ -9,18 +257,48 @@ pub fn replay(path: &str) -> i32 {
         eprintln!("cannot read {path}");
         return 2;
     };
-    let Ok(j) = serde_json::from_str::<serde_json::Value>(&s) else {
+    let Ok(j) = serde_json::from_str::<J>(&s) else {
         eprintln!("replay file is not JSON");
         return 2;
     };
-    let prop = j["property"].as_str().unwrap_or("");
-    match prop {
-        "C17" => crate::c17::replay(&j),
-        "C18" => crate::c18::replay(&j),
-        "C19" => crate::c19::replay(&j),
+    let prop = j["property"].as_str().unwrap_or("").to_string();
+    match prop.as_str() {
+        "C17" => return crate::c17::replay(&j),
+        "C18" => return crate::c18::replay(&j),
+        "C19" => return crate::c19::replay(&j),
+        _ => {}
+    }
+    let test: TestFn = match prop.as_str() {
+        "C01" => crate::c01::test,
+        "C03" => crate::c03::test,
+        "C04" => crate::c04::test,
+        "C12" => crate::c12::test,
+        "C15" => crate::c15::test,
         _ => {
             eprintln!("no replay handler for property {prop:?}");
-            2
+            return 2;
+        }
+    };
+    let reg = registry();
+    let case = match case_from_json(&reg, &j["case"]) {
+        Ok(c) => c,
+        Err(e) => {
+            eprintln!("cannot decode the case: {e}");
+            return 2;
+        }
+    };
+    match test(&reg, &case, None) {
+        Verdict::Ok => {
+            println!("{prop} replay: the property holds on this case");
+            0
+        }
+        Verdict::Known(sig) => {
+            println!("{prop} replay: known finding {sig}");
+            0
+        }
+        Verdict::Violation(sig, d) => {
+            println!("{prop} replay: VIOLATED [{sig}] {}", serde_json::to_string(&d).unwrap_or_default());
+            1
         }
     }
 }
